@@ -285,19 +285,16 @@ func (g *c10Gen) newPools() {
 	}
 	g.bms = []string{"-", "0", "31", "32", "1023", "0.1", "5.40.700", "0.31.32.63.1023"}
 	for i := 0; i < 3; i++ {
-		var bits []string
 		seen := map[int]bool{}
 		for j := g.r.Range(1, 4); j > 0; j-- {
-			b := g.r.Intn(1024)
-			if !seen[b] {
-				seen[b] = true
-			}
+			seen[g.r.Intn(1024)] = true
 		}
 		var bs []int
 		for b := range seen {
 			bs = append(bs, b)
 		}
 		sort.Ints(bs)
+		var bits []string
 		for _, b := range bs {
 			bits = append(bits, strconv.Itoa(b))
 		}
@@ -715,10 +712,163 @@ func (w *c10Cache) dump() string {
 		c10TrackerStr(w.core.domainRouting), w.obs.kernelStr())
 }
 
+type c10Key struct {
+	name  string // fqdn
+	qtype uint16
+	scope string
+}
+
+func (k c10Key) base() string { return k.name + strconv.Itoa(int(k.qtype)) }
+func (k c10Key) key() string  { return k.base() + k.scope }
+func (k c10Key) host() string { return strings.TrimSuffix(k.name, ".") }
+
 var c10Names = []string{"a.com.", "b.com.", "c.net."}
 var c10Scopes = []string{"", "|upstream@udp://1.1.1.1:53", "|asis@9.9.9.9:53"}
 
-func c10RunCacheHistory(st *VStream, r *VRand, obs *c10Observer, stats *VStats, g *c10Gen, forceStale bool) {
+type c10Hist struct {
+	w       *c10Cache
+	st      *VStream
+	r       *VRand
+	g       *c10Gen
+	stats   *VStats
+	fixed   map[string]int
+	maxSize int
+	lastTtl int
+}
+
+func (h *c10Hist) put(k c10Key, ttl int, bm string, ans []string) {
+	w := h.w
+	h.lastTtl = ttl
+	fttlTok := "-"
+	if f, ok := h.fixed[k.host()]; ok {
+		fttlTok = strconv.Itoa(f)
+	}
+	var rrs []dnsmessage.RR
+	for _, a := range ans {
+		rrs = append(rrs, c10MakeAns(a, k.name))
+	}
+	w.nextBitmap = c10ParseBits(bm, 32)
+	op := strings.TrimRight(fmt.Sprintf("put %s %d %s %s %s", k.key(), ttl, fttlTok, bm, strings.Join(ans, " ")), " ")
+	out := VRecover(func() string {
+		if rt := w.ctrl.runtime(); rt != nil {
+			rt.fixedDomainTtl = h.fixed // fixed_domain_ttl of the running configuration
+		}
+		if err := w.ctrl.UpdateDnsCacheTtlWithKey(k.key(), k.name, k.qtype, rrs, nil, nil, ttl); err != nil {
+			return "err:" + err.Error()
+		}
+		return w.summary()
+	})
+	h.stats.Inc("c.op.put")
+	h.stats.Sample(op)
+	h.st.Emit(op, out)
+}
+
+func (h *c10Hist) del(k c10Key) {
+	out := VRecover(func() string { h.w.ctrl.RemoveDnsRespCache(k.key()); return h.w.summary() })
+	h.stats.Inc("c.op.del")
+	h.st.Emit("del "+k.key(), out)
+}
+
+func (h *c10Hist) fam(k c10Key) {
+	w := h.w
+	w.order = nil
+	out := VRecover(func() string { w.ctrl.RemoveDnsRespCacheFamily(k.base()); return "legal=1 " + w.summary() })
+	if len(w.order) > 1 {
+		h.stats.Inc("c.op.fam_removed_several_scopes")
+	}
+	h.stats.Inc("c.op.fam")
+	h.st.Emit(strings.TrimRight("fam "+k.base()+" "+strings.Join(w.order, " "), " "), out)
+}
+
+func (h *c10Hist) look(k c10Key, ig bool) {
+	w := h.w
+	before := len(w.ctrl.bpfUpdateCh)
+	w.order = nil
+	out := VRecover(func() string { w.ctrl.LookupDnsRespCache(k.key(), ig); return w.summary() })
+	if len(w.ctrl.bpfUpdateCh) > before {
+		h.stats.Inc("c.refresh_queued")
+	}
+	if len(w.order) > 0 {
+		h.stats.Inc("c.expired_on_lookup")
+	}
+	h.stats.Inc("c.op.look")
+	h.st.Emit("look "+k.key()+" "+c10B(ig), out)
+}
+
+func (h *c10Hist) jan() {
+	w := h.w
+	w.order = nil
+	_, before := w.mirror()
+	out := VRecover(func() string { w.ctrl.evictExpiredDnsCache(time.Now()); return "legal=1 " + w.summary() })
+	if len(w.order) > 0 {
+		h.stats.Add("c.janitor_evictions", len(w.order))
+		if h.maxSize > 0 && before > h.maxSize {
+			h.stats.Inc("c.janitor_runs_over_lru_limit")
+		}
+	}
+	h.stats.Inc("c.op.jan")
+	h.st.Emit(strings.TrimRight("jan "+strings.Join(w.order, " "), " "), out)
+}
+
+func (h *c10Hist) sleep(d time.Duration) {
+	time.Sleep(d)
+	h.stats.Inc("c.op.sleep")
+	h.st.Emit("sleep "+strconv.FormatInt(d.Nanoseconds(), 10), h.w.summary())
+}
+
+func c10SnapEqual(a, b domainRoutingOwnerSnapshot) bool {
+	if a.bitmap != b.bitmap || len(a.ips) != len(b.ips) {
+		return false
+	}
+	for k := range a.ips {
+		if _, ok := b.ips[k]; !ok {
+			return false
+		}
+	}
+	return true
+}
+
+func (h *c10Hist) work() {
+	w := h.w
+	out := VRecover(func() string {
+		select {
+		case task := <-w.ctrl.bpfUpdateCh:
+			// is the entry this task points to still what the cache holds under its key?
+			fresh := false
+			if cur, ok := w.ctrl.dnsCache.Load(task.cache.RouteOwnerKey); ok {
+				a, _ := buildDomainRoutingOwnerSnapshot(cur.(*DnsCache))
+				b, _ := buildDomainRoutingOwnerSnapshot(task.cache)
+				fresh = c10SnapEqual(a, b)
+			}
+			if !fresh {
+				w.stale = true
+				h.stats.Inc("c.stale_refresh_applied")
+			} else {
+				h.stats.Inc("c.fresh_refresh_applied")
+			}
+			w.ctrl.processBpfUpdateTask(task, false)
+		default:
+		}
+		return w.summary()
+	})
+	h.stats.Inc("c.op.work")
+	h.st.Emit("work", out)
+}
+
+func (h *c10Hist) touch(k c10Key) {
+	if v, ok := h.w.ctrl.dnsCache.Load(k.key()); ok {
+		v.(*DnsCache).lastAccessNano.Store(time.Now().UnixNano()) // the one line of LookupDnsRespCache_ that feeds the LRU
+	}
+	h.stats.Inc("c.op.touch")
+	h.st.Emit("touch "+k.key(), h.w.summary())
+}
+
+func (h *c10Hist) dump() {
+	h.st.Emit("cdump", h.w.dump())
+	h.stats.Inc("c.op.dump")
+}
+
+func c10RunCacheHistory(st *VStream, r *VRand, obs *c10Observer, stats *VStats, g *c10Gen, scripted bool) {
 	optEnabled := r.Chance(0.3)
 	optTtl := []int{0, 0, 5, 60}[r.Intn(4)]
 	maxSize := []int{0, 0, 2, 3, 5}[r.Intn(5)]
@@ -729,97 +879,54 @@ func c10RunCacheHistory(st *VStream, r *VRand, obs *c10Observer, stats *VStats, 
 		stats.Inc("c.histories_with_lru_limit")
 	}
 	g.newPools()
+	h := &c10Hist{w: w, st: st, r: r, g: g, stats: stats, fixed: map[string]int{}, maxSize: maxSize, lastTtl: 10}
 	// key pool: names x qtypes x scopes
-	var keys []string
+	var keys []c10Key
 	for n := r.Range(1, 6); n > 0; n-- {
-		keys = append(keys, c10Names[r.Intn(len(c10Names))]+[]string{"1", "28"}[r.Intn(2)]+c10Scopes[r.Intn(len(c10Scopes))])
+		keys = append(keys, c10Key{c10Names[r.Intn(len(c10Names))], []uint16{dnsmessage.TypeA, dnsmessage.TypeAAAA}[r.Intn(2)], c10Scopes[r.Intn(len(c10Scopes))]})
 	}
-	fixed := map[string]int{}
-	nOps := r.Range(1, 60)
-	lastTtl := 10
-	everPut := false
-	for i := 0; i < nOps; i++ {
-		key := keys[r.Intn(len(keys))]
-		x := r.Intn(100)
-		if forceStale && everPut && i > nOps/2 && x >= 40 && x < 70 {
-			x = 90 // more refresh traffic in the histories meant to reach the deferred worker
+	if scripted {
+		// skeleton that reaches the deferred refresh worker: insert with a long TTL, let >= 60 s pass, look the
+		// entry up (queues a refresh), then mutate the entry (or not) before the worker runs.
+		k := keys[0]
+		h.put(k, []int{100, 300}[r.Intn(2)], g.bitmap(), g.answers())
+		if len(keys) > 1 && r.Bool() {
+			h.put(keys[1], 300, g.bitmap(), g.answers())
 		}
-		switch {
-		case x < 38: // put
-			everPut = true
-			ttl := []int{0, 1, 2, 10, 60, 61, 100, 300}[r.Intn(8)]
-			lastTtl = ttl
-			bm := g.bitmap()
-			ans := g.answers()
-			host := strings.SplitN(key, ".", 2)[0] + "." + strings.TrimSuffix(strings.SplitN(strings.SplitN(key, "|", 2)[0], ".", 2)[1], ".")
-			host = host[:strings.LastIndex(host, ".")] // drop the qtype suffix
-			fqdn := host + "."
-			qtype := dnsmessage.TypeA
-			if strings.Contains(strings.SplitN(key, "|", 2)[0], ".28") {
-				qtype = dnsmessage.TypeAAAA
-			}
-			fttlTok := "-"
-			if f, ok := fixed[host]; ok {
-				fttlTok = strconv.Itoa(f)
-			}
-			var rrs []dnsmessage.RR
-			for _, a := range ans {
-				rrs = append(rrs, c10MakeAns(a, fqdn))
-			}
-			w.nextBitmap = c10ParseBits(bm, 32)
-			op := strings.TrimRight(fmt.Sprintf("put %s %d %s %s %s", key, ttl, fttlTok, bm, strings.Join(ans, " ")), " ")
-			out := VRecover(func() string {
-				// fixed_domain_ttl is part of the runtime state; set it on the live runtime
-				if rt := w.ctrl.runtime(); rt != nil {
-					rt.fixedDomainTtl = fixed
-				}
-				err := w.ctrl.UpdateDnsCacheTtlWithKey(key, fqdn, qtype, rrs, nil, nil, ttl)
-				if err != nil {
-					return "err:" + err.Error()
-				}
-				return w.summary()
-			})
-			stats.Inc("c.op.put")
-			stats.Sample(op)
-			st.Emit(op, out)
+		h.sleep([]time.Duration{60 * time.Second, 61 * time.Second, 75 * time.Second}[r.Intn(3)])
+		h.look(k, false)
+		switch r.Intn(6) {
+		case 0:
+			h.put(k, 100, g.bitmap(), g.answers())
+		case 1:
+			h.del(k)
+		case 2:
+			h.fam(k)
+		case 3:
+			h.sleep(61 * time.Second)
+			h.look(k, false) // a second refresh queued behind the first
+		case 4:
+			h.put(k, 100, g.bitmap(), g.answers())
+			h.del(k)
+		default:
+		}
+		h.work()
+		h.dump()
+	}
+	nOps := r.Range(1, 60)
+	for i := 0; i < nOps; i++ {
+		k := keys[r.Intn(len(keys))]
+		switch x := r.Intn(100); {
+		case x < 38:
+			h.put(k, []int{0, 1, 2, 10, 60, 61, 100, 300}[r.Intn(8)], g.bitmap(), g.answers())
 		case x < 46:
-			out := VRecover(func() string { w.ctrl.RemoveDnsRespCache(key); return w.summary() })
-			stats.Inc("c.op.del")
-			st.Emit("del "+key, out)
+			h.del(k)
 		case x < 52:
-			base := strings.SplitN(key, "|", 2)[0]
-			w.order = nil
-			out := VRecover(func() string { w.ctrl.RemoveDnsRespCacheFamily(base); return "legal=1 " + w.summary() })
-			if len(w.order) > 1 {
-				stats.Inc("c.op.fam_removed_several_scopes")
-			}
-			stats.Inc("c.op.fam")
-			st.Emit(strings.TrimRight("fam "+base+" "+strings.Join(w.order, " "), " "), out)
+			h.fam(k)
 		case x < 66:
-			ig := r.Chance(0.3)
-			before := len(w.ctrl.bpfUpdateCh)
-			w.order = nil
-			out := VRecover(func() string { w.ctrl.LookupDnsRespCache(key, ig); return w.summary() })
-			if len(w.ctrl.bpfUpdateCh) > before {
-				stats.Inc("c.refresh_queued")
-			}
-			if len(w.order) > 0 {
-				stats.Inc("c.expired_on_lookup")
-			}
-			stats.Inc("c.op.look")
-			st.Emit("look "+key+" "+c10B(ig), out)
+			h.look(k, r.Chance(0.3))
 		case x < 74:
-			w.order = nil
-			_, before := w.mirror()
-			out := VRecover(func() string { w.ctrl.evictExpiredDnsCache(time.Now()); return "legal=1 " + w.summary() })
-			if len(w.order) > 0 {
-				stats.Add("c.janitor_evictions", len(w.order))
-				if maxSize > 0 && before > maxSize {
-					stats.Inc("c.janitor_runs_over_lru_limit")
-				}
-			}
-			stats.Inc("c.op.jan")
-			st.Emit(strings.TrimRight("jan "+strings.Join(w.order, " "), " "), out)
+			h.jan()
 		case x < 88:
 			var d time.Duration
 			switch r.Intn(9) {
@@ -830,12 +937,9 @@ func c10RunCacheHistory(st *VStream, r *VRand, obs *c10Observer, stats *VStats, 
 			case 2:
 				d = time.Second
 			case 3:
-				d = time.Duration(lastTtl) * time.Second // exactly to the deadline of the last put (if nothing else slept)
+				d = time.Duration(h.lastTtl) * time.Second // exactly to the deadline of the last put (if nothing else slept)
 			case 4:
-				d = time.Duration(lastTtl)*time.Second - time.Nanosecond
-				if d < 0 {
-					d = time.Nanosecond
-				}
+				d = time.Duration(h.lastTtl)*time.Second - time.Nanosecond
 			case 5:
 				d = 30 * time.Second
 			case 6:
@@ -845,55 +949,23 @@ func c10RunCacheHistory(st *VStream, r *VRand, obs *c10Observer, stats *VStats, 
 			default:
 				d = time.Duration(r.Range(1, 120)) * time.Second
 			}
-			time.Sleep(d)
-			stats.Inc("c.op.sleep")
-			st.Emit("sleep "+strconv.FormatInt(d.Nanoseconds(), 10), w.summary())
-		case x < 94:
-			out := VRecover(func() string {
-				select {
-				case task := <-w.ctrl.bpfUpdateCh:
-					// is the entry this task points to still what the cache holds under its key?
-					fresh := false
-					if cur, ok := w.ctrl.dnsCache.Load(task.cache.RouteOwnerKey); ok {
-						a, _ := buildDomainRoutingOwnerSnapshot(cur.(*DnsCache))
-						b, _ := buildDomainRoutingOwnerSnapshot(task.cache)
-						fresh = a.bitmap == b.bitmap && len(a.ips) == len(b.ips)
-						for k := range a.ips {
-							if _, ok := b.ips[k]; !ok {
-								fresh = false
-							}
-						}
-					}
-					if !fresh {
-						w.stale = true
-						stats.Inc("c.stale_refresh_applied")
-					} else {
-						stats.Inc("c.fresh_refresh_applied")
-					}
-					w.ctrl.processBpfUpdateTask(task, false)
-				default:
-				}
-				return w.summary()
-			})
-			stats.Inc("c.op.work")
-			st.Emit("work", out)
-		case x < 97:
-			if v, ok := w.ctrl.dnsCache.Load(key); ok {
-				v.(*DnsCache).lastAccessNano.Store(time.Now().UnixNano()) // the one line of LookupDnsRespCache_ that feeds the LRU
+			if d <= 0 {
+				d = time.Nanosecond
 			}
-			stats.Inc("c.op.touch")
-			st.Emit("touch "+key, w.summary())
+			h.sleep(d)
+		case x < 94:
+			h.work()
+		case x < 97:
+			h.touch(k)
 		default:
 			if r.Bool() {
-				host := strings.TrimSuffix(c10Names[r.Intn(len(c10Names))], ".")
-				fixed[host] = []int{0, 1, 5, 600}[r.Intn(4)]
+				h.fixed[strings.TrimSuffix(c10Names[r.Intn(len(c10Names))], ".")] = []int{0, 1, 5, 600}[r.Intn(4)]
 				stats.Inc("c.fixed_ttl_set")
 			}
-			st.Emit("cdump", w.dump())
-			stats.Inc("c.op.dump")
+			h.dump()
 		}
 	}
-	st.Emit("cdump", w.dump())
+	h.dump()
 	if w.stale {
 		stats.Inc("c.histories_with_stale_refresh")
 	}
@@ -918,9 +990,9 @@ func TestVerifC10(t *testing.T) {
 		histories = 5000
 	}
 	for h := 0; h < histories; h++ {
-		forceStale := h%4 == 3
+		scripted := h%4 == 3
 		synctest.Test(t, func(t *testing.T) {
-			c10RunCacheHistory(st, r, obs, stats, g, forceStale)
+			c10RunCacheHistory(st, r, obs, stats, g, scripted)
 		})
 	}
 	stats.Write("c10")
